@@ -1,4 +1,5 @@
 import Log4rsModel.System.Lemmas
+import Log4rsModel.Properties.C12
 /-
 System slice (audited under C01 through `extra_proof_modules`): the whole pipeline
 
@@ -48,14 +49,26 @@ theorem C01_sys_observation_eq_spec (cfg : SysConfig) (asts : Name → List Pat)
   simp [hst, observe, hc]
 
 /-- the model's "compile the pattern once, encode per record" is the pattern area's
-`PatternEncoder::new(p).encode(record)` (`Parse.run`, the object of C09) on every record -/
+`PatternEncoder::new(p).encode(record)` (`Parse.run`, the object of C09) on every record, for every
+appender that carries a pattern encoder -/
 theorem C01_sys_encoder_is_pattern_run (cfg : SysConfig) (asts : Name → List Pat) (h : SysWF cfg asts)
-    (a : Name) (ha : a ∈ cfg.routing.appenders) (r : SysRecord) :
-    ∃ s, getApp (stateOf cfg asts fun b => Rolling.openContent (cfg.app b).mode (cfg.app b).pre).apps a = some s ∧
+    (a : Name) (ha : a ∈ cfg.routing.appenders) (hk : (cfg.app a).kind = .pattern) (r : SysRecord) :
+    ∃ s cs, getApp (stateOf cfg asts fun b => Rolling.openContent (cfg.app b).mode (cfg.app b).pre).apps a = some s ∧
+      s.enc = .pattern cs ∧
       sysOpen cfg = .ok (stateOf cfg asts fun b => Rolling.openContent (cfg.app b).mode (cfg.app b).pre) ∧
-      encList r.env r.record s.enc = Parse.run cfg.cc cfg.P cfg.B r.env r.record (cfg.app a).pattern := by
-  refine ⟨_, getApp_map _ _ a ha, sysOpen_ok cfg asts h, ?_⟩
-  exact encode_eq_run cfg asts h a ha r
+      encList r.env r.record cs = Parse.run cfg.cc cfg.P cfg.B r.env r.record (cfg.app a).pattern := by
+  obtain ⟨hc, hrun⟩ := encode_eq_run cfg asts h a ha hk r
+  exact ⟨_, _, getApp_map _ _ a ha, hc, sysOpen_ok cfg asts h, hrun⟩
+
+/-- (stage 2 (B)) the line an appender with the JSON encoder adds per delivery is a line the C12
+specification (`Json.specLine`: one line, valid JSON, the documented members in order, every field
+round-trips, absent fields omitted) accepts for that record and environment -/
+theorem C01_sys_json_line_meets_c12_spec (cfg : SysConfig) (asts : Name → List Pat) (a : Name)
+    (hk : (cfg.app a).kind = .json) (r : SysRecord) (hm : Json.MdcIsMap (jsonEnv r)) :
+    specLine cfg asts a r = utf8 (jsonOf r) ∧
+    Json.specLine (jsonEnv r) (jsonRecord r) (jsonOf r) = .ok := by
+  refine ⟨by simp [specLine, hk], ?_⟩
+  exact Json.C12_model_satisfies_spec (jsonEnv r) (jsonRecord r) hm
 
 /-- Isolation of files, for ANY state and any patterns (no well-formedness needed): a record that the
 specification routes zero copies of to appender `a` — because `a` is not attached along the chain,
@@ -205,16 +218,16 @@ example : SysWF exCfg exAsts where
   dcp := rfl
   mdc := rfl
   printed := by
-    intro a ha
+    intro a ha _
     simp only [exCfg, exRouting, List.mem_cons, List.not_mem_nil, or_false] at ha
     rcases ha with rfl | rfl <;> rfl
   wf := by
-    intro a ha
+    intro a ha _
     simp only [exCfg, exRouting, List.mem_cons, List.not_mem_nil, or_false] at ha
     rcases ha with rfl | rfl <;> decide
 
 example : ∀ r ∈ exRecords, DatesOkFor exCfg exAsts r := by
-  intro r _ a ha _
+  intro r _ a ha _ _
   simp only [exCfg, exRouting, List.mem_cons, List.not_mem_nil, or_false] at ha
   rcases ha with rfl | rfl <;>
     exact ⟨by intro f hf; simp [exAsts, exAstF, exAstG, exF, exG, allDatesPats, allDatesPat] at hf,
